@@ -8,11 +8,14 @@ Tie: the metamorphic relation run directly on the real code - generated document
 delimiter triples x line-break styles through pyx12.x12n_document: verdict, error set (level, code, segment position,
 element position, offending value) and acknowledgement body must be identical.
 """
+import io
 import random
 
 from . import common, gendoc, pipeline
 
-TRIPLES = [('~', '*', ':'), ('!', '|', '>'), ('#', '+', '\\'), ("'", '*', '<'), ('\n', '|', ':'), ('~', '^', '>'), ('$', '*', '@')]
+TRIPLES = [('~', '*', ':'), ('!', '|', '>'), ('#', '+', '\\'), ("'", '*', '<'), ('\n', '|', ':'), ('~', '^', '>'), ('$', '*', '@'),
+           ('~', '\x1c', ':'), ('\x1d', '\x1f', '>'), ('\x1e', '*', ':')]   # component separator stays inside the character set
+CHUNKINGS = ['whole', 'whole', 'after-terminator', 'inside-linebreak', 'small']
 BREAKS = ['', '\n', '\r', '\r\n']
 
 
@@ -33,6 +36,37 @@ def reencode(text, term, ele, sub, brk, icvn):
     return ''.join(x + term + b for x in out)
 
 
+class ChunkedSource(io.StringIO):
+    """a text stream whose read() returns short reads at chosen places (how the OS/stream splits reads must not matter)"""
+
+    def __init__(self, text, cuts):
+        io.StringIO.__init__(self, text)
+        self.cuts = sorted(set(c for c in cuts if 106 < c < len(text)))
+
+    def read(self, n=-1):
+        pos = self.tell()
+        if n is None or n < 0:
+            return io.StringIO.read(self, n)
+        nxt = next((c for c in self.cuts if c > pos), None)
+        if nxt is not None and nxt - pos < n:
+            n = nxt - pos
+        return io.StringIO.read(self, n)
+
+
+def make_source(text, term, brk, how, rnd):
+    if how == 'whole':
+        return None
+    cuts = []
+    idx = [i for i, ch in enumerate(text) if ch == term]
+    if how == 'after-terminator':
+        cuts = [i + 1 for i in rnd.sample(idx, min(len(idx), 12))]
+    elif how == 'inside-linebreak':
+        cuts = [i + 2 for i in rnd.sample(idx, min(len(idx), 12))] if len(brk) == 2 else [i + 1 for i in rnd.sample(idx, min(len(idx), 12))]
+    else:
+        cuts = list(range(107, len(text), rnd.choice((1, 7, 64))))
+    return ChunkedSource(text, cuts)
+
+
 def inject(text, rnd):
     """0-2 faults on the canonical text: bad value, dropped element, unknown segment, duplicated / deleted segment"""
     segs = text.strip().split('\n')
@@ -41,7 +75,7 @@ def inject(text, rnd):
     for _ in range(n):
         j = rnd.randrange(3, max(4, len(segs) - 3))
         f = segs[j].rstrip('~').split('*')
-        k = rnd.choice(('long', 'code', 'drop', 'unk', 'dup', 'del', 'class'))
+        k = rnd.choice(('long', 'code', 'drop', 'unk', 'dup', 'del', 'class', 'trail'))
         kinds.append(k)
         if k == 'long' and len(f) > 1:
             i = rnd.randrange(1, len(f))
@@ -58,6 +92,8 @@ def inject(text, rnd):
             i = rnd.randrange(1, len(f))
             f[i] = ''
             segs[j] = '*'.join(f) + '~'
+        elif k == 'trail':
+            segs[j] = segs[j].rstrip('~') + '*' * rnd.choice((1, 2)) + '~'
         elif k == 'unk':
             segs.insert(j, 'ZZZ*1~')
         elif k == 'dup':
@@ -73,8 +109,8 @@ def canon_value(v, ele, sub):
     return v.replace(sub, ':') if sub != ':' else v
 
 
-def observe(text, term, ele, sub):
-    r = pipeline.validate(text)
+def observe(text, term, ele, sub, src=None):
+    r = pipeline.validate(text, src=src)
     errs = sorted((e[0], e[1], e[2], e[3], e[5], e[6], canon_value(e[7], ele, sub)) for e in r.errors if len(e) == 8)
     body = None
     if r.ack:
@@ -102,8 +138,8 @@ def run(tier):
     thorough = tier == 'thorough'
     rnd = random.Random(common.seed() * 15485863 + 12)
     entries = [m for m in gendoc.index_entries() if m['fic'] != 'FA']
-    ndocs = 12 if thorough else 2
-    nenc = 10 if thorough else 3
+    ndocs = 12 if thorough else 3
+    nenc = 10 if thorough else 5
     kinds_seen = {}
     for m in entries:
         for i in range(ndocs):
@@ -119,14 +155,15 @@ def run(tier):
                 if m['icvn'] == '00501' and sub == '^':
                     continue
                 t2 = reencode(text, term, ele, sub, brk, m['icvn'])
-                got = observe(t2, term, ele, sub)
+                how = rnd.choice(CHUNKINGS)
+                got = observe(t2, term, ele, sub, make_source(t2, term, brk, how, rnd))
                 res.count()
-                res.distinct((m['map_file'], sd, tuple(kinds), term, ele, sub, brk))
+                res.distinct((m['map_file'], sd, tuple(kinds), term, ele, sub, brk, how))
                 if got != base:
                     diff = [n for n, a, b in zip(('verdict', 'exception', 'errors', 'ack body'), base, got) if a != b]
                     res.violation('pred:reencoding-changes-%s' % '-'.join(diff).replace(' ', '-'),
-                                  '%s re-encoded with terminator %r separator %r component %r break %r changes %s' % (
-                                      m['map_file'], term, ele, sub, brk, diff),
+                                  '%s re-encoded with terminator %r separator %r component %r break %r (reads: %s) changes %s' % (
+                                      m['map_file'], term, ele, sub, brk, how, diff),
                                   {'map': m['map_file'], 'faults': kinds, 'canonical_document': text, 'reencoded_document': t2,
                                    'call': 'pyx12.x12n_document.x12n_document on both texts',
                                    'observed': {'canonical': repr(base)[:1500], 'reencoded': repr(got)[:1500]},
